@@ -87,17 +87,16 @@ func (s *session) httpMatrix() []httpProbe {
 func isCacheClass(c string) bool { return c != "/status" && c != "/metrics" && c != "/" }
 
 func (s *session) probeHTTP(phase string, c *client) {
-	r := s.r
 	cfg := s.cfg
 	cs := c.cred
 	authOn := cfg.Auth != "none"
 	for _, p := range s.httpMatrix() {
 		res := c.do(p.Method, p.Path, p.Body)
 		s.probes++
-		r.Eval()
-		r.Distinct(cfg.String(), "http", p.Method, p.Class, p.Variant, cs.Name, phase)
+		s.eval()
+		s.distinct(cfg.String(), "http", p.Method, p.Class, p.Variant, cs.Name, phase)
 		s.note("HTTP %s %s [%s] cred=%s phase=%s -> %d %v", p.Method, p.Path, p.Variant, cs.Name, phase, res.Status, res.Err)
-		cnt := func(outcome string) { r.Count(fmt.Sprintf("http.%s.%s.%s", cfg.authName(), credClass(cs), outcome)) }
+		cnt := func(outcome string) { s.count(fmt.Sprintf("http.%s.%s.%s", cfg.authName(), credClass(cs), outcome)) }
 		tuple := fmt.Sprintf("http|%s|%s|%s|%s", p.Method, p.Class, p.Variant, cs.Name)
 
 		det := func() map[string]any {
@@ -126,14 +125,14 @@ func (s *session) probeHTTP(phase string, c *client) {
 				s.refusedBefore[tuple] = s.refusedBefore[tuple] || phase == "before-valid-login"
 			case !s.alive():
 				s.dead = true
-				r.Inconclusive(fmt.Sprintf("server %s went away at HTTP %s %s: %.300s", cfg, p.Method, p.Path, s.child.LogTail(300)))
+				s.inconclusive(fmt.Sprintf("server %s went away at HTTP %s %s: %.300s", cfg, p.Method, p.Path, s.child.LogTail(300)))
 				return
 			case cs.Valid && cfg.TLS:
 				cnt("transport-error")
-				r.Violation(key("valid-refused"), "request with valid credentials failed below HTTP (TLS) while the server is up", det())
+				s.violate(key("valid-refused"), "request with valid credentials failed below HTTP (TLS) while the server is up", det())
 			default:
 				cnt("transport-error")
-				r.Inconclusive(fmt.Sprintf("HTTP %s %s on %s: transport error %v", p.Method, p.Path, cfg, res.Err))
+				s.inconclusive(fmt.Sprintf("HTTP %s %s on %s: transport error %v", p.Method, p.Path, cfg, res.Err))
 			}
 			continue
 		}
@@ -144,21 +143,21 @@ func (s *session) probeHTTP(phase string, c *client) {
 		case !authOn:
 			if refused {
 				cnt("refused")
-				r.Violation(key("noauth-refused"), fmt.Sprintf("authentication disabled but %s %s answered %d", p.Method, p.Class, st), det())
+				s.violate(key("noauth-refused"), fmt.Sprintf("authentication disabled but %s %s answered %d", p.Method, p.Class, st), det())
 			} else {
 				cnt("served")
 			}
 		case cs.Valid:
 			if refused {
 				cnt("refused")
-				r.Violation(key("valid-refused"), fmt.Sprintf("valid credentials (%s) refused: %s %s answered %d", cs.Name, p.Method, p.Class, st), det())
+				s.violate(key("valid-refused"), fmt.Sprintf("valid credentials (%s) refused: %s %s answered %d", cs.Name, p.Method, p.Class, st), det())
 			} else {
 				cnt("served")
 			}
 		case cfg.Reads && isRead:
 			if refused {
 				cnt("refused")
-				r.Violation(key("open-read-refused"), fmt.Sprintf("allow_unauthenticated_reads is on but %s %s without valid credentials answered %d", p.Method, p.Class, st), det())
+				s.violate(key("open-read-refused"), fmt.Sprintf("allow_unauthenticated_reads is on but %s %s without valid credentials answered %d", p.Method, p.Class, st), det())
 			} else {
 				cnt("open-read-served")
 			}
@@ -186,7 +185,7 @@ func (s *session) probeHTTP(phase string, c *client) {
 				if p.Method == "PUT" && isCacheClass(p.Class) {
 					failure = "unauthenticated-write"
 				}
-				r.Violation(key(failure), fmt.Sprintf("%s %s without valid credentials (%s) answered %d instead of being refused", p.Method, p.Class, cs.Name, st), det())
+				s.violate(key(failure), fmt.Sprintf("%s %s without valid credentials (%s) answered %d instead of being refused", p.Method, p.Class, cs.Name, st), det())
 			}
 		}
 		if p.Write != nil && authOn && !cs.Valid {
@@ -194,17 +193,17 @@ func (s *session) probeHTTP(phase string, c *client) {
 			w.Cred, w.Phase, w.Answer = cs.Name, phase, fmt.Sprint(st)
 			s.pending = append(s.pending, w)
 		}
-		if p.Write != nil && (cs.Valid || !authOn) {
+		if p.Write != nil && (cs.Valid || !authOn) && !refused {
 			// Positive control: the same kind of request does store when let through.
 			path := "/cas/" + p.Write.Hash
 			if p.Write.Kind == "ac" {
 				path = "/ac/" + p.Write.Hash
 			}
 			if h := s.setup.do("HEAD", path, nil); h.Status == 200 {
-				r.Count("control.http-write-stored")
+				s.count("control.http-write-stored")
 			} else {
-				r.Count("control.http-write-NOT-stored")
-				r.Inconclusive(fmt.Sprintf("control: PUT %s with valid credentials answered %d but lookup says %d on %s", p.Path, st, h.Status, cfg))
+				s.count("control.http-write-NOT-stored")
+				s.inconclusive(fmt.Sprintf("control: PUT %s with valid credentials answered %d but lookup says %d on %s", p.Path, st, h.Status, cfg))
 			}
 		}
 	}
